@@ -50,7 +50,7 @@ PROPS = {
     },
     "C04": {
         "level": "other",
-        "owns": ["C04", "C10", "C11", "C12", "C01", "C15"],
+        "owns": ["C04", "C10", "C11", "C12", "C01", "C15", "C14"],
         "explanation": ("Cluster-level statement is not solver-decidable here (multi-instance BMC out of reach). Decided: every link of the "
                         "refutation chain as a step obligation on one real instance for all values within the bounds: loss is silent and a "
                         "failed round only suspects (t_probe), the suspect refutes with a higher incarnation in every datagram of the step "
@@ -61,7 +61,7 @@ PROPS = {
         "assumptions": [STUBS],
         "harnesses": [
             H("c11_timeout_iff", cost=40), H("t_probe_k2", cost=60), H("d_ack", cost=70), H("d_fwd_ack", cost=105),
-            H("a_apply1_k1", cost=120), H("t_indirect_k2", cost=70),
+            H("a_apply1_k1", cost=120), H("t_indirect_k2", cost=70), H("c14_next_k3", cost=40), H("c07_send_pb_17", cost=75),
             H("d_ping_upd", tier=T, cost=900, timeout_t=3600, mem_gb=44), H("d_gossip_upd", tier=T, cost=900, timeout_t=3600, mem_gb=44), H("t_probe_k3", tier=T, cost=120),
         ],
     },
@@ -86,9 +86,9 @@ PROPS = {
         "outside": "variable-length identity encodings and serde codecs at the Foca level (their framing is C20); packets > 36 bytes; > 2 items per section",
         "assumptions": [STUBS, "grammar oracle parse_datagram enumerates the finitely many layouts of the fixed-size kit format"],
         "harnesses": [
-            H("c07_send_pb_12", cost=60), H("c07_send_pb_17", cost=75), H("c07_send_pb_22", cost=130), H("c07_send_feed_17", cost=80),
+            H("c07_send_pb_12", cost=60), H("c07_send_pb_13", cost=60), H("c07_send_pb_17", cost=75), H("c07_send_pb_22", cost=130), H("c07_send_feed_17", cost=80),
             H("c07_send_bare_10", cost=25), H("c07_send_bcast_15", cost=25), H("d_ping", cost=80),
-            H("c07_send_pb_9", tier=T), H("c07_send_pb_10", tier=T), H("c07_send_pb_13", tier=T), H("c07_send_pb_16", tier=T), H("c07_send_pb_21", tier=T),
+            H("c07_send_pb_9", tier=T), H("c07_send_pb_10", tier=T), H("c07_send_pb_16", tier=T), H("c07_send_pb_21", tier=T),
             H("c07_send_pb_27", tier=T, cost=200), H("c07_send_pb_32", tier=T, cost=300), H("c07_send_feed_12", tier=T), H("c07_send_feed_22", tier=T, cost=200),
             H("c07_send_feed_32", tier=T, cost=300), H("c07_send_feed_failing", tier=T, cost=600, timeout_t=3000), H("c07_send_bare_32", tier=T),
             H("c07_send_bcast_14", tier=T), H("c07_send_bcast_32", tier=T), H("d_gossip_custom", tier=T), H("d_announce", tier=T, cost=500, timeout_t=3000),
@@ -99,9 +99,10 @@ PROPS = {
         "level": "model_checking", "bounds": BOUNDS_E1, "outside": OUT_E1, "assumptions": [STUBS],
         "harnesses": [
             H("a_apply1_k1", cost=120), H("c11_timeout_iff", cost=40), H("d_ping", cost=80), H("a_leave", cost=40), H("a_change_identity", cost=50),
-            H("c08_accumulating_runtime", cost=60),
+            H("c08_accumulating_runtime", cost=70, entry="AccumulatingRuntime::{notify,submit_after,to_notify,to_schedule}", bounds="3 calls, concrete kind sequence N-T-N, symbolic payloads"),
             H("d_turn_undead_never", tier=T, cost=200), H("d_turn_undead_next", tier=T, cost=600, timeout_t=3000), H("a_apply1_k2", tier=T, cost=220), H("a_apply1_k3", tier=T, cost=400), H("d_gossip_upd", tier=T, cost=900, timeout_t=3600, mem_gb=44),
             H("t_remove", tier=T), H("a_reuse", tier=T), H("c01_monotone", tier=T),
+            H("c08_accumulating_runtime_b", tier=T, cost=70), H("c08_accumulating_send", tier=T, cost=600, timeout_t=3000, entry="AccumulatingRuntime::{send_to,to_send}"),
         ],
     },
     "C09": {
@@ -123,7 +124,7 @@ PROPS = {
         "assumptions": [STUBS, "timers named in the obligation are ones an instance can have scheduled itself (identity not newer than the record; current-token suspicion timers exist only while Connected)"],
         "harnesses": [
             H("c11_timeout_iff", cost=40, entry="Foca::handle_timer(ChangeSuspectToDown)"), H("t_remove", cost=70, entry="Foca::handle_timer(RemoveDown)"),
-            H("a_apply1_k1", cost=120), H("d_ping", cost=80),
+            H("a_apply1_k1", cost=120), H("d_ping", cost=80), H("a_leave", cost=40),
             H("c11_timeout_iff_k3", tier=T, cost=120), H("a_apply1_k2", tier=T, cost=220), H("d_gossip_upd", tier=T, cost=900, timeout_t=3600, mem_gb=44),
         ],
     },
@@ -140,7 +141,7 @@ PROPS = {
         "assumptions": [STUBS, "the runtime delivers each scheduled timer at most once"],
         "harnesses": [
             H("c13_stale_probe", cost=30), H("c13_stale_suspect", cost=45), H("c13_stale_gossip", cost=30), H("t_probe_k2", cost=60), H("t_announce", cost=65),
-            H("c06_set_config_same", cost=60), H("a_apply1_k1", cost=120), H("a_change_identity", cost=50), H("a_reuse", cost=12),
+            H("c06_set_config_same", cost=60), H("a_apply1_k1", cost=120), H("a_change_identity", cost=50), H("a_reuse", cost=12), H("t_gossip_idle", cost=60),
             H("c13_stale_indirect", tier=T, cost=100), H("c13_stale_announce", tier=T, cost=85), H("c13_stale_announce_down", tier=T, cost=95), H("t_gossip", tier=T, cost=200),
             H("t_announce_down", tier=T, cost=120), H("a_leave", tier=T), H("d_turn_undead_never", tier=T, cost=200), H("d_turn_undead_next", tier=T, cost=600, timeout_t=3000),
             H("c11_timeout_iff", tier=T), H("t_indirect_k2", tier=T),
@@ -164,7 +165,8 @@ PROPS = {
         "harnesses": [
             H("bc_fill_2_a", cost=290, timeout_q=900, **BC), H("bc_add_keyed", cost=120, **BC), H("bc_budget_two_rounds", cost=100, **BC),
             H("c07_send_pb_17", cost=75), H("a_apply1_k1", cost=120), H("c01_idempotent", cost=130),
-            H("bc_fill_1", tier=T, **BC), H("bc_fill_2_b", tier=T, cost=300, **BC), H("bc_fill_3_a", tier=T, cost=900, timeout_t=3000, **BC), H("bc_fill_3_b", tier=T, cost=900, timeout_t=3000, **BC),
+            H("c15_key_same_addr", cost=60, entry="Foca::handle_apply_summary x3 on the real backlog (no stubs)"), H("c15_key_diff_addr", cost=60), H("bc_fill_1", cost=80, **BC),
+            H("t_gossip_idle", tier=T), H("bc_fill_2_b", tier=T, cost=300, **BC), H("bc_fill_3_a", tier=T, cost=900, timeout_t=3000, **BC), H("bc_fill_3_b", tier=T, cost=900, timeout_t=3000, **BC),
             H("bc_fill_3_c", tier=T, cost=900, timeout_t=3000, **BC), H("bc_fill_real_buffer", tier=T, **BC), H("t_gossip", tier=T, cost=200), H("c07_send_pb_22", tier=T, cost=130),
             H("c07_send_feed_17", tier=T), H("c07_send_bare_10", tier=T), H("a_gossip", tier=T, cost=90), H("t_probe_k2", tier=T),
         ],
@@ -176,7 +178,7 @@ PROPS = {
         "outside": "items > 6 bytes, > 2 pending items, 64 KiB length truncation", "assumptions": [STUBS],
         "harnesses": [
             H("bc_invalidate", cost=200, timeout_q=900, **BC), H("bc_fill_prefix_2", cost=300, timeout_q=900, **BC), H("c16_add_broadcast", cost=40), H("c16_broadcast_one", cost=120),
-            H("d_gossip_custom", cost=65), H("c07_send_bcast_15", cost=25),
+            H("d_gossip_custom", cost=65), H("c07_send_bcast_15", cost=25), H("c16_broadcast_drain", cost=60, entry="Foca::broadcast on the real backlog (no stubs)"),
             H("bc_fill_prefix_1", tier=T, **BC), H("bc_fill_prefix_3", tier=T, cost=900, timeout_t=3000, **BC), H("c16_broadcast_empty", tier=T), H("d_broadcast_custom", tier=T),
             H("c07_send_pb_17", tier=T), H("c07_send_pb_22", tier=T, cost=130), H("c07_send_bcast_32", tier=T), H("c07_send_bare_10", tier=T),
         ],
@@ -187,8 +189,8 @@ PROPS = {
         "assumptions": [STUBS],
         "harnesses": [
             H("c17_oversize", cost=20), H("c17_bad_header_5", cost=30), H("c17_bad_header_tag11", cost=30), H("c17_bad_member_state", cost=40), H("c17_bad_member_count", cost=40), H("c17_trailing_byte", cost=30), H("c17_trailing_byte_ping", cost=60), H("d_ping", cost=80),
-            H("a_reuse", cost=12), H("c16_add_broadcast", cost=40),
-            H("a_change_identity", tier=T), H("c06_set_config_same", tier=T), H("c17_announce_payload", tier=T), H("c17_trailing_byte_turn_undead", tier=T, cost=300), H("c17_bad_header_0", tier=T), H("c17_bad_header_9", tier=T), H("c17_bad_header_tag255", tier=T), H("c17_bad_member_trunc", tier=T), H("c17_bad_member_state255", tier=T), H("c13_stale_probe", tier=T), H("d_gossip", tier=T), H("a_announce", tier=T),
+            H("a_reuse", cost=12), H("c16_add_broadcast", cost=40), H("c13_stale_indirect", cost=100), H("c13_stale_probe", cost=30),
+            H("a_change_identity", tier=T), H("c06_set_config_same", tier=T), H("c17_announce_payload", tier=T), H("c17_trailing_byte_turn_undead", tier=T, cost=300), H("c17_bad_header_0", tier=T), H("c17_bad_header_9", tier=T), H("c17_bad_header_tag255", tier=T), H("c17_bad_member_trunc", tier=T), H("c17_bad_member_state255", tier=T), H("c13_stale_suspect", tier=T), H("c13_stale_gossip", tier=T), H("d_gossip", tier=T), H("a_announce", tier=T),
         ],
     },
     "C18": {
@@ -222,15 +224,15 @@ PROPS = {
         "assumptions": ["alloc::fmt::format stubbed to an empty string (error formatting has no effect on control flow)"],
         "harnesses": [
             H("c20_pc_member_roundtrip", cost=30, **CD), H("c20_pc_header_pingreq", cost=60, **CD), H("c20_pc_member_short_buffer", cost=60, **CD),
-            H("c20_pc_member_arbitrary_bytes", cost=60, **CD), H("c20_bc_member_encode_matches_reference", cost=90, **CD), H("c20_bc_member_decode_reference", cost=90, **CD),
+            H("c20_pc_member_arbitrary_bytes", cost=60, **CD), H("c20_bc_member_encode_matches_reference", cost=90, **CD), H("c20_bc_member_arbitrary_bytes", cost=100, **CD),
         ] + [H("c20_pc_header_" + v, tier=T, cost=60, **CD) for v in ["ping", "ack", "indirect_ping", "indirect_ack", "fwd_ack", "announce", "feed", "gossip", "broadcast", "turn_undead"]]
           + [H("c20_bc_header_" + v, tier=T, cost=200, timeout_t=3000, **CD) for v in ["ping", "pingreq", "fwd_ack", "announce", "turn_undead"]]
-          + [H("c20_pc_header_arbitrary_bytes", tier=T, cost=200, **CD), H("c20_bc_member_short_buffer", tier=T, cost=100, **CD), H("c20_bc_member_arbitrary_bytes", tier=T, cost=100, **CD),
+          + [H("c20_pc_header_arbitrary_bytes", tier=T, cost=200, **CD), H("c20_bc_member_short_buffer", tier=T, cost=100, **CD), H("c20_bc_member_decode_reference", tier=T, cost=600, timeout_t=3000, mem_gb=44, **CD),
              H("c07_send_feed_failing", tier=T, cost=600, timeout_t=3000), H("c07_send_pb_9", tier=T)],
     },
 }
 
-DEV = ["bc_fill_2_a","bc_add_keyed","bc_invalidate","bc_fill_prefix_2","bc_budget_two_rounds","bc_fill_1"]
+DEV = ["t_gossip_idle","c16_broadcast_drain","c15_key_same_addr","c15_key_diff_addr","c16_broadcast_one","c20_bc_member_arbitrary_bytes"]
 PROPS["DEV"] = {"level": "model_checking", "harnesses": [H(n, engine=("bcast" if n.startswith("bc_") else "codec" if n.startswith("c20_") or n.startswith("c06_config") else "incrate")) for n in DEV]}
 
 HOOK_COMMITS = ["2dd5aa0"]
